@@ -744,7 +744,7 @@ package app
 //@   requires logs-nonnil: forall k string :: k in p.processLogs ==> p.processLogs[k] != nil
 //@   ensures counted-and-named: forall k string :: k in p.project.Processes && p.project.Processes[k].Name == name ==> replicaOk(p.project.Processes[k], k, name, scale)
 //@   ensures others-untouched: forall k string :: old(k in p.project.Processes) && old(p.project.Processes[k].Name) != name && (forall n int {replicaNameOf(name, scale, n)} :: k != replicaNameOf(name, scale, n)) ==> k in p.project.Processes && p.project.Processes[k] == old(p.project.Processes[k])
-//@   ensures nolocks: noLocks()
+//@   ensures nolocks: noLocks() && runnerWF(p)
 //@   loop 1 invariant logs-nonnil: forall k string :: k in p.processLogs ==> p.processLogs[k] != nil
 //@   loop 1 invariant wf: noLocks() && runnerWF(p) && p.processLogs != nil && p.processStates != nil && p.project.Processes != nil && p.project == old(p.project) && p.project.Processes == old(p.project.Processes)
 //@   loop 1 invariant done-or-pending: forall k string :: k in p.project.Processes && p.project.Processes[k].Name == name ==>
@@ -775,7 +775,7 @@ package app
 //@   ensures ended: old(name in p.runningProcesses) && result == nil ==> old(p.runningProcesses[name]).done
 //@   ensures others-config: forall k string :: k != name ==> (k in p.project.Processes <==> old(k in p.project.Processes)) && p.project.Processes[k] == old(p.project.Processes[k])
 //@   ensures dependency-maps-untouched: unchangedOld("MapDom.Str.types.ProcessDependency")
-//@   ensures nolocks: noLocks()
+//@   ensures nolocks: noLocks() && runnerWF(p)
 
 // the number of replicas currently configured under a process name; at least one if any replica carries the name
 // the number a scale request is compared with is the CURRENT number of configured replicas
@@ -794,6 +794,7 @@ package app
 //@   ensures invalid-scale: scale < 1 ==> result != nil
 //@   ensures unknown: !old(name in p.project.Processes) ==> result != nil
 //@   ensures unchanged-on-error: (scale < 1 || !old(name in p.project.Processes)) ==> spawned(fntag("(*app.ProjectRunner).runProcess$1")) == old(spawned(fntag("(*app.ProjectRunner).runProcess$1"))) && stops() == old(stops()) && runs() == old(runs()) && kept("abool") && unchangedOld("MapDom.Str.types.ProcessConfig") && unchangedOld("MapVal.Str.types.ProcessConfig") && unchangedOld("MapDom.Str.ptr.app.Process") && unchangedOld("MapVal.Str.ptr.app.Process")
+//@   ensures wf: noLocks() && runnerWF(p)
 
 // ---------- C07: run plan ----------
 // With --no-deps exactly the processes whose NAME is requested stay enabled (every replica of them) and lose their
